@@ -415,10 +415,10 @@ inline bool run_inner(Tape& t, Report& rep, Focus focus)
                 // only a time budget tells how long a search may run: a depth- or nodes-limited search that reaches the
                 // harness's visit cap (unbounded quiescence in crowded positions) is inconclusive, not a violation
                 if (v >= C.cap.load()) rep.cls("uci:go_inconclusive_visit_cap");
-                if (budget_ms && legal.size() > 1 && v >= C.cap.load())
+                if (budget_ms && v >= C.cap.load())
                     return rep.fail("limits:uci:does_not_terminate", "`" + go + "` was still searching after " + std::to_string(v) + " node visits (virtual clock " + std::to_string(C.rate.load()) +
                                                                          " visits/ms; its budget is " + std::to_string(budget_ms) + " ms) and had to be stopped by the harness\n session: " + transcript);
-                if (budget_ms && legal.size() > 1 && v > budget_ms * C.rate.load() + 70000)
+                if (budget_ms && v > budget_ms * C.rate.load() + 70000)
                     return rep.fail("limits:uci:time_budget_exceeded", "`" + go + "` ran for " + std::to_string(v / C.rate.load()) + " virtual ms, its own budget is " + std::to_string(budget_ms) +
                                                                            " ms\n session: " + transcript);
             }
